@@ -5,7 +5,7 @@ MODULES = {
     # harness module -> how it is built. Every module has a go.mod `replace`
     # pointing into /repo, so `go test -c` compiles /repo's working tree.
     "otap": {"go": "go", "minimize": True, "race": True},
-    "batchproc": {"go": "go1.26.8", "minimize": False, "race": True},
+    "batchproc": {"go": "go1.26.8", "minimize": True, "race": True},
     "obfus": {"go": "go", "minimize": False, "race": False},
 }
 
@@ -175,6 +175,93 @@ PROPS.update({
         "jobs": {
             "quick": [{"test": "TestC16", "shards": 8, "checks": 160, "timeout": 900, "race": True}],
             "thorough": [{"test": "TestC16", "shards": 16, "checks": 5600, "timeout": 3300, "race": True}],
+        },
+    },
+})
+
+BP_ASSUME = [
+    "the processor is created through its factory and driven through Consume*/Shutdown only; the next consumer, the TracerProvider and all contexts are the harness's",
+    "time is the component's own clock: every scenario runs in a testing/synctest bubble (Go 1.26.8), timers fire on virtual time, and after every scenario step the harness waits until all goroutines are durably blocked, so the interleaving is owned at action granularity; requests inside one consume step race for real",
+    "interleavings below action granularity are sampled (stress variants, -race), not enumerated; liveness is checked only as 'nothing is still blocked after every export was released and Shutdown was called'",
+    "a bubble in which something never returns is abandoned and reported as a hang; a panic on a processor goroutine kills the process and the driver reports the scenario saved before execution",
+]
+
+BP_RULE = ("rapid draws a scenario = (signal, config{send_batch_size 0-7, send_batch_max_size, timeout 0/200/1000/5000 ms, max_concurrency, early_return[, metadata keys+limit]}, "
+           "1-8 requests with 1-3 resources x 0-3 scopes x 0-4 items (metrics: 0-3 metrics x 0-3 points of all five data types, empty containers included), context groups, "
+           "up to 24 steps of consume(group of 1-3)/advance(virtual ms around the timeout)/complete|fail(export k)/cancel(ctx)/shutdown) with gated or auto-completing exports; %s; "
+           "DISTINCT = FNV-64 of (config, step-kind sequence, per-export (items, contributing requests, failed?))")
+
+PROPS.update({
+    "C05": {
+        "module": "batchproc", "level": "exploration",
+        "technique": "stateful property-based testing (rapid scenarios executed in a synctest bubble) with a history invariant: exactly-once multiset of item ids plus content and container-chain fingerprints",
+        "level_text": "Generated-schedule search with an invariant over the recorded history: the multiset of item ids seen by the next consumer equals that of the accepted requests (refused: none, context ended: at most once), each item's content fingerprint and the fingerprint of its container chain (resource attrs/dropped/schema URL, scope name/version/attrs/schema URL, metric descriptor) - taken before Consume - are unchanged, nothing unknown is exported; merges, splits inside scopes/metrics and Shutdown with buffered items are generated on purpose.",
+        "design_ref": "DESIGN.md §6, §7 C05",
+        "rule": BP_RULE % "NON-TRIVIAL = a request was split across >=2 exports or >=2 requests were merged into one export",
+        "assumptions": BP_ASSUME + ["metric.Metadata() is not part of the identity C05 enumerates and is not compared"],
+        "jobs": {
+            "quick": [{"test": "TestC05", "shards": 8, "checks": 40000, "timeout": 600}],
+            "thorough": [{"test": "TestC05", "shards": 16, "checks": 1600000, "timeout": 3000}, {"test": "TestC05", "shards": 2, "checks": 60000, "timeout": 3000, "race": True}],
+        },
+    },
+    "C06": {
+        "module": "batchproc", "level": "exploration",
+        "technique": "stateful property-based testing (rapid scenarios in a synctest bubble) with a history invariant relating each Consume return (time, error) to the outcomes of the exports that carried its items",
+        "level_text": "Generated schedules x fault sequences: gated exports completed in any order with scripted ok/fail outcomes, cancels and deadlines at any step. Invariant: a non-early-return Consume returns only at a step by which every export carrying its items has returned; nil iff all of them succeeded; an error wraps the failure of a carrying export and never that of a non-carrying one; after its context ends it returns in the same virtual instant with the context error; items are delivered at most once; early_return returns nil at the enqueue instant; a caller still blocked after the cleanup phase is a lost response.",
+        "design_ref": "DESIGN.md §6, §7 C06",
+        "rule": BP_RULE % "NON-TRIVIAL = a request carried by >=2 exports with mixed outcomes, or a context that ended while its request was partially exported",
+        "assumptions": BP_ASSUME + ["'wrapping the export failure' is read as: wraps at least one failed carrying export, and no non-carrying one"],
+        "jobs": {
+            "quick": [{"test": "TestC06", "shards": 8, "checks": 40000, "timeout": 600}],
+            "thorough": [{"test": "TestC06", "shards": 16, "checks": 1600000, "timeout": 3000}],
+        },
+    },
+    "C09": {
+        "module": "batchproc", "level": "exploration",
+        "technique": "stateful property-based testing on a virtual clock (synctest): invariants on export sizes, on the buffer at every quiescent point and on each item's export time vs its accept time",
+        "level_text": "Generated arrival timings on the component's own (virtual) clock with unlimited concurrency and auto-completing exports, so the concurrency limit cannot hold exports back: every export has 1..send_batch_max_size items; at every quiescent point fewer than send_batch_size items are buffered (none when timeout or size is 0); every item enters the next consumer no later than accept time + timeout (at the accept instant in the immediate modes). Upper bounds only.",
+        "design_ref": "DESIGN.md §6, §7 C09",
+        "rule": BP_RULE % "NON-TRIVIAL = a timer-triggered flush of a partial batch after a size-triggered flush",
+        "assumptions": BP_ASSUME + ["deadline clauses are judged only with max_concurrency=0, auto-completing exports and no metadata keys"],
+        "jobs": {
+            "quick": [{"test": "TestC09", "shards": 8, "checks": 40000, "timeout": 600}],
+            "thorough": [{"test": "TestC09", "shards": 16, "checks": 1600000, "timeout": 3000}],
+        },
+    },
+    "C10": {
+        "module": "batchproc", "level": "exploration",
+        "technique": "stateful property-based testing (rapid scenarios in a synctest bubble) with a history invariant on tenant purity, visible client metadata and admissions, plus a real-scheduler admission stress under -race",
+        "level_text": "Generated metadata key sets (mixed case), single/multi/empty/absent values, limits 0-3, sequential and racing first arrivals: every export carries items of one combination; client.Metadata seen by the export agrees with it on every configured key; admitted combinations <= limit; refusals are permanent and export nothing; for sequential arrivals a request is refused iff its combination is new and the limit is reached. The stress variant releases up to 24 goroutines with fresh combinations from a barrier on the real scheduler under the race detector.",
+        "design_ref": "DESIGN.md §6, §7 C10",
+        "rule": BP_RULE % "NON-TRIVIAL = metadata keys configured and >=2 exports (bubble) / every stress run; stress evaluations are counted per case, label stress_rounds counts rounds",
+        "assumptions": BP_ASSUME + ["absent and empty-list metadata are the same combination (client.Metadata.Get returns nil for both); [\"\"] is distinct"],
+        "jobs": {
+            "quick": [{"test": "TestC10", "shards": 8, "checks": 40000, "timeout": 600}, {"test": "TestStressC10", "shards": 4, "checks": 120, "timeout": 600, "race": True}],
+            "thorough": [{"test": "TestC10", "shards": 14, "checks": 1400000, "timeout": 3000}, {"test": "TestStressC10", "shards": 4, "checks": 6000, "timeout": 3000, "race": True}],
+        },
+    },
+    "C11": {
+        "module": "batchproc", "level": "exploration",
+        "technique": "stateful property-based testing (rapid scenarios in a synctest bubble) with in-flight/drain/leak/hang invariants, repeated under the race detector, plus a real-scheduler concurrency stress under -race",
+        "level_text": "Generated schedules with gated exports completed in arbitrary order, failures, cancels/deadlines anywhere, Shutdown while callers wait, max_concurrency 0-3: in-flight exports per combination <= max_concurrency at every export entry; after the cleanup phase Shutdown has returned, after every export returned and every accepted item was exported; no caller is blocked; no processor goroutine is left (stack scan of the bubble). The same family runs in a -race build (a race report ends the process and is reported with the scenario), and a real-scheduler stress with latencies and cancels checks the bound, the drain and the leak statistically.",
+        "design_ref": "DESIGN.md §6, §7 C11",
+        "rule": BP_RULE % "NON-TRIVIAL = gated scenario with >=2 exports (bubble) / every stress run",
+        "assumptions": BP_ASSUME + ["no claim of exhaustiveness over interleavings; deadlock = still blocked in the virtual instant after everything was released"],
+        "jobs": {
+            "quick": [{"test": "TestC11", "shards": 6, "checks": 30000, "timeout": 600}, {"test": "TestC11", "shards": 2, "checks": 4000, "timeout": 600, "race": True}, {"test": "TestStressC11", "shards": 4, "checks": 60, "timeout": 600, "race": True}],
+            "thorough": [{"test": "TestC11", "shards": 10, "checks": 1000000, "timeout": 3000}, {"test": "TestC11", "shards": 4, "checks": 100000, "timeout": 3000, "race": True}, {"test": "TestStressC11", "shards": 4, "checks": 3000, "timeout": 3000, "race": True}],
+        },
+    },
+    "C18": {
+        "module": "batchproc", "level": "exploration",
+        "technique": "stateful property-based testing (rapid scenarios in a synctest bubble) with a history invariant on export contexts (ctx.Value markers, ctx.Err, outcome) and on spans recorded by an SDK TracerProvider",
+        "level_text": "Generated merges of requests from distinct contexts (2..n contributors, differing context first/middle/last, shared contexts, partial sends), cancels and deadlines on any subset at any step, a next consumer that honours cancellation: a multi-context export shows no caller's context value, its context never ends, it is not cancelled through its context, its span is a root with exactly one link per distinct contributing request span, each of which has a link back; a single-context export's span is a child of that request's span; a caller whose context is alive never receives a context error and its items are exported.",
+        "design_ref": "DESIGN.md §6, §7 C18",
+        "rule": BP_RULE % "NON-TRIVIAL = a multi-context export with exactly two contributing requests, or with the odd context last",
+        "assumptions": BP_ASSUME + ["spans come from go.opentelemetry.io/otel/sdk with an in-memory SpanRecorder passed through processor.Settings"],
+        "jobs": {
+            "quick": [{"test": "TestC18", "shards": 8, "checks": 40000, "timeout": 600}],
+            "thorough": [{"test": "TestC18", "shards": 16, "checks": 1600000, "timeout": 3000}],
         },
     },
 })
